@@ -17,10 +17,12 @@ from mc.engine.core import Collector, Result, Violation
 from mc.ref import dot as D
 
 PLAN = {
-    "quick": ([("D1", 2), ("D2", 2), ("D0", 2), ("C1", 2), ("L1", 2), ("G1", 2), ("M1", 2), ("M2", 2)], 0),
-    "thorough": ([("D1", 3), ("D2", 3), ("D0", 3), ("C1", 3), ("L1", 3), ("G1", 3), ("M1", 3), ("M2", 3)], 1),
+    "quick": ([("D3", 2), ("C2", 2), ("K1", 2), ("M5", 2), ("M4", 2), ("D1", 2), ("D2", 2), ("D0", 2), ("C1", 2), ("L1", 2), ("G1", 2), ("M1", 2), ("M2", 2)], 1),
+    "thorough": ([("D3", 3), ("C2", 3), ("K1", 2), ("M5", 3), ("M4", 3), ("D1", 3), ("D2", 3), ("D0", 3), ("C1", 3), ("L1", 3), ("G1", 3), ("M1", 3), ("M2", 3)], 1),
 }
 _DEPTH = 0
+_KINDS = ("reuse", "del", "insert", "meta")  # quick: one mutation of each of these kinds per program
+_RENDERERS: dict = {}  # one long-lived DotRenderer per configuration, reused for every HUGR of the worker
 
 
 def configs():
@@ -86,6 +88,13 @@ def check_render(h, cfg_name, cfg):
 
     try:
         src = h.render_dot(cfg).source
+        from hugr.hugr.render import DotRenderer
+
+        if cfg_name not in _RENDERERS:
+            _RENDERERS[cfg_name] = DotRenderer(cfg)
+        src_reused = _RENDERERS[cfg_name].render(h).source
+        if src_reused != src:
+            fails.append(("renderer-reuse", f"[{cfg_name}] a DotRenderer that already rendered other HUGRs produces a different source than a fresh one"))
     except Exception as e:  # noqa: BLE001
         import traceback
 
@@ -169,12 +178,15 @@ def check_render(h, cfg_name, cfg):
     return fails, (view, src)
 
 
-def check_hugr(h, tag):
+def check_hugr(h, tag, few_configs=False):
     out = []
     before = (c02.structure(h), h.to_json())
     views = {}
     srcs = {}
-    for name, cfg in configs():
+    cfgs = configs()
+    if few_configs:
+        cfgs = [c for c in cfgs if c[0] in ("default-config", "nb/qualified")]
+    for name, cfg in cfgs:
         fails, res = check_render(h, name, cfg)
         for sig, msg in fails:
             out.append((f"{sig}:{tag}", msg))
@@ -213,20 +225,25 @@ def oracle(sc, ctx, program):
     def factory():
         return bpm.run(sc, program).hugr
 
-    for hist, h in mutate.histories(factory, _DEPTH, "quick"):
+    for hist, h in mutate.histories(factory, _DEPTH, "quick", kinds=_KINDS if _TIER == "quick" else None):
         tag = "+".join(m[0] for m in hist) or "built"
-        for sig, msg in check_hugr(h, tag):
+        for sig, msg in check_hugr(h, tag, few_configs=bool(hist) and _TIER == "quick"):
             out.append((sig, f"{msg} | history={hist} | program={program}"))
     return out
 
 
+_TIER = "quick"
+
+
 def run(tier: str, seed: int) -> Result:
-    global _DEPTH
+    global _DEPTH, _TIER
+    _TIER = tier
     plan, _DEPTH = PLAN[tier]
     col = Collector()
     r = e2.explore(SCENARIOS, oracle, plan)
     for sig, msg, case in r.fails:
         case["depth"] = _DEPTH
+        case["tier"] = tier
         col.add(sig, msg, case)
     ncfg = len(configs())
     cov = {
@@ -249,8 +266,9 @@ def run(tier: str, seed: int) -> Result:
 
 
 def replay(case) -> list[Violation]:
-    global _DEPTH
+    global _DEPTH, _TIER
     _DEPTH = case.get("depth", 0)
+    _TIER = case.get("tier", "quick")
     sc = SCENARIOS[case["scenario"]]
     ctx = bpm.run(sc, case["program"])
     return [Violation(s, m, case) for s, m in oracle(sc, ctx, case["program"])]
